@@ -1,5 +1,338 @@
-/- C08 property theorems (placeholder while the models are being built). -/
-import SteelVerif.C08.Spec
+/-
+C08 — property theorems.
+
+Part 1 (Wind): `winders` / `common-tail` / `do-wind` / `dynamic-wind` / the call/cc wrapper of parameters.scm.
+Part 2 (Model): the stack VM with lazily captured continuation marks and the handler search of vm.rs.
+`GenCode.lean` is regenerated from /repo on every run; the obligations `code_*` (by `decide`) stop checking when the
+code changes back (e.g. `equal?` in `common-tail`).
+-/
+import SteelVerif.C08.LemmasWind
+import SteelVerif.C08.LemmasRun
+import SteelVerif.C08.LemmasProgress
+import SteelVerif.C08.GenCode
 namespace SteelVerif.C08
-theorem placeholder : True := trivial
+open Wind Model
+
+/-! ## Part 1: winders -/
+
+/-- parameters.scm compares winders entries with `eq?` (identity of the `(in . out)` pair of one extent). -/
+theorem code_compares_extents_by_identity : GenCode.codeCmp = .eq := by decide
+
+/-- parameters.scm: dynamic-wind conses a fresh pair, pops winders and runs `out` on normal return, and its
+exception handler pops winders, runs `out` and re-raises; the call/cc wrapper skips `do-wind` only when the saved
+winders are `eq?` to the current ones.  (These are the shapes `Wind.run` and `Wind.invokeWrapper` transcribe.) -/
+theorem code_dynamic_wind_shape :
+    GenCode.windPushesFreshPair = true ∧ GenCode.windNormalPopsRunsOut = true ∧
+    GenCode.windHandlerPopsRunsOutReraises = true ∧ GenCode.wrapperGuardEq = true := by decide
+
+/-- Distinct extents compare different (the guard under which ANY comparison is good enough). -/
+def DistinctExtentsDiffer (cmp : Entry → Entry → Bool) (A B : Winders) : Prop :=
+  ∀ b ∈ B, ∀ a ∈ A, b.id ≠ a.id → cmp b a = false
+
+/-- `wind_exactly_once`, for the comparison the code uses: a transfer from winders `A' ++ C` to `B' ++ C`
+(`A'`, `B'` made of different extents) runs `after` of `A'` innermost first, then `before` of `B'` outermost
+first — each exactly once, nothing else — and ends with winders `B' ++ C`. -/
+theorem wind_exactly_once (A' B' C : Winders) (t : List Ev)
+    (hdis : ∀ b ∈ B', ∀ a ∈ A', b.id ≠ a.id) :
+    doWind (cmpOf GenCode.codeCmp) (B' ++ C) ⟨A' ++ C, t⟩ =
+      ⟨B' ++ C, t ++ A'.map Ev.after ++ B'.reverse.map Ev.before⟩ := by
+  rw [code_compares_extents_by_identity]
+  refine doWind_general eqCmp_refl A' B' C t ?_
+  intro b hb a ha
+  simpa [eqCmp] using hdis b hb a ha
+
+/-- The same for any reflexive comparison under the guard `DistinctExtentsDiffer`. -/
+theorem wind_exactly_once_partial (cmp : Entry → Entry → Bool) (hr : ∀ a, cmp a a = true)
+    (A' B' C : Winders) (t : List Ev) (hdis : ∀ b ∈ B', ∀ a ∈ A', b.id ≠ a.id)
+    (hg : DistinctExtentsDiffer cmp A' B') :
+    doWind cmp (B' ++ C) ⟨A' ++ C, t⟩ = ⟨B' ++ C, t ++ A'.map Ev.after ++ B'.reverse.map Ev.before⟩ :=
+  doWind_general hr A' B' C t (fun b hb a ha => hg b hb a ha (hdis b hb a ha))
+
+/-- Without the guard the `equal?`-like comparison is wrong (D12): two extents entered with the same procedures
+(`with-lock` twice): no thunk runs and `winders` keeps naming the extent that was left. -/
+theorem wind_equal_witness :
+    doWind equalCmp [⟨1, 7, 8⟩] ⟨[⟨2, 7, 8⟩], []⟩ = ⟨[⟨2, 7, 8⟩], []⟩ ∧
+    doWind eqCmp [⟨1, 7, 8⟩] ⟨[⟨2, 7, 8⟩], []⟩ = ⟨[⟨1, 7, 8⟩], [.after ⟨2, 7, 8⟩, .before ⟨1, 7, 8⟩]⟩ := by
+  decide
+
+/-- Every thunk that runs, runs once: with extents identified by unique ids the events of a transfer are
+pairwise different. -/
+theorem wind_events_nodup (A' B' : Winders) (hA : (A'.map Entry.id).Nodup) (hB : (B'.map Entry.id).Nodup) :
+    (A'.map Ev.after ++ B'.reverse.map Ev.before).Nodup := by
+  unfold List.Nodup at *
+  rw [List.pairwise_map] at hA hB
+  rw [List.pairwise_append]
+  refine ⟨?_, ?_, ?_⟩
+  · rw [List.pairwise_map]
+    exact hA.imp (fun h heq => h (by cases heq; rfl))
+  · rw [List.pairwise_map, List.pairwise_reverse]
+    exact hB.imp (fun h heq => h (by cases heq; rfl))
+  · intro x hx y hy
+    simp only [List.mem_map] at hx hy
+    obtain ⟨a, _, rfl⟩ := hx
+    obtain ⟨b, _, rfl⟩ := hy
+    simp
+
+/-- The call/cc wrapper: skipping `do-wind` when the saved winders ARE the current ones changes nothing. -/
+theorem wrapper_eq_doWind (cmp : Entry → Entry → Bool) (hr : ∀ a, cmp a a = true) (fast : Bool)
+    (save : Winders) (s : WState) (hfast : fast = true → save = s.winders) :
+    invokeWrapper cmp fast save s = doWind cmp save s := by
+  unfold invokeWrapper
+  cases fast with
+  | false => rfl
+  | true =>
+    have h := hfast rfl
+    subst h
+    have := doWind_general hr [] [] s.winders s.trace (by simp)
+    simpa using this.symm
+
+/-- Normal return and the error path: a program of nested `dynamic-wind`s, notes and a raise runs, through the
+mechanism of parameters.scm (winders pushed / popped, the handler pops, runs `out` and re-raises), exactly
+`before e … after e` around each body it enters, in nesting order, whether the body returns or raises; `winders`
+ends as it started. -/
+theorem wind_normal_and_error_once (p : Prog) (s : WState) :
+    Wind.run p s = ({ winders := s.winders, trace := s.trace ++ (expected p).1 }, (expected p).2) :=
+  run_eq_expected p s
+
+/-! ## Part 2: continuation marks and handlers -/
+
+/-- The VM state `ops₁` leads to from an initial state, then a capture, then `ops₂`. -/
+structure Captured (cfg : Cfg) (vm0 : VM) (ops₁ : List Op) (fn : Nat) (kv : V) (ops₂ : List Op)
+    (vmc vm2 : VM) : Prop where
+  start : Inv vm0
+  before : Model.run cfg vm0 ops₁ = some vmc
+  after : Model.run cfg vmc (.capture fn kv :: ops₂) = some vm2
+
+theorem captured_eager {cfg vm0 ops₁ fn kv ops₂ vmc vm2} (h : Captured cfg vm0 ops₁ fn kv ops₂ vmc vm2) :
+    Inv vm2 ∧ vm2.eager[vmc.marks.length]? = some (snapshot vmc) := by
+  obtain ⟨hic, _⟩ := run_inv ops₁ h.start h.before
+  have ha := h.after
+  simp only [Model.run] at ha
+  cases h1 : exec cfg vmc (.capture fn kv) with
+  | none => simp [h1] at ha
+  | some vm1 =>
+    simp only [h1, Option.bind_some] at ha
+    obtain ⟨hi1, _⟩ := exec_inv hic _ h1
+    obtain ⟨hi2, hx⟩ := run_inv ops₂ hi1 ha
+    refine ⟨hi2, hx.eager _ _ ?_⟩
+    simp only [exec, Option.some.injEq] at h1
+    subst h1
+    simp [hic.tok.len]
+
+/-- `lazy_capture_eq_eager`: for every sequence of operations (frame push / pop, changes of the running frame,
+store writes, captures, invocations, error unwinds) before and after a capture, a successful invocation of the
+captured continuation — whether its mark is closed by then or still open — reinstates exactly what reinstating an
+eager full copy taken at capture time would: same operand stack, frames, ip, sp (and the current store). -/
+theorem lazy_capture_eq_eager {cfg vm0 ops₁ fn kv ops₂ vmc vm2}
+    (h : Captured cfg vm0 ops₁ fn kv ops₂ vmc vm2) (v : V) (w s : Bool) (vm3 : VM)
+    (hinv : exec cfg vm2 (.invoke vmc.marks.length v w s) = some vm3) :
+    vm3.stack = (reinstate (snapshot vmc) v vm2).stack ∧ vm3.frames = (reinstate (snapshot vmc) v vm2).frames ∧
+    vm3.ip = (reinstate (snapshot vmc) v vm2).ip ∧ vm3.sp = (reinstate (snapshot vmc) v vm2).sp ∧
+    vm3.store = (reinstate (snapshot vmc) v vm2).store := by
+  obtain ⟨hi2, he⟩ := captured_eager h
+  simp only [exec] at hinv
+  obtain ⟨e, he', h1, h2, h3, h4, h5, _⟩ := invoke_spec hi2 hinv
+  rw [he] at he'; cases he'
+  exact ⟨h1, h2, h3, h4, h5⟩
+
+/-- `invoke_restores_pending_work`: the frames (pending work), the locals and argument temporaries of every frame
+(the whole operand stack as it was at capture, the capturing frame's part included) and the resume address are
+those of the capture, the passed value is on top; mutable storage is NOT restored: it is what it was just
+before the invocation. -/
+theorem invoke_restores_pending_work {cfg vm0 ops₁ fn kv ops₂ vmc vm2}
+    (h : Captured cfg vm0 ops₁ fn kv ops₂ vmc vm2) (v : V) (w s : Bool) (vm3 : VM)
+    (hinv : exec cfg vm2 (.invoke vmc.marks.length v w s) = some vm3) :
+    vm3.frames = vmc.frames ∧ vm3.stack = vmc.stack ++ [v] ∧ vm3.ip = vmc.ip + 1 ∧ vm3.sp = vmc.sp ∧
+    vm3.store = vm2.store :=
+  let ⟨h1, h2, h3, h4, h5⟩ := lazy_capture_eq_eager h v w s vm3 hinv
+  ⟨h2, h1, h3, h4, h5⟩
+
+/-- `invoke_twice_same` (multi-shot): two invocations of the same continuation, after any two continuations of
+the run, resume the same pending work. -/
+theorem invoke_twice_same {cfg vm0 ops₁ fn kv ops₂ ops₂' vmc vm2 vm2'}
+    (h : Captured cfg vm0 ops₁ fn kv ops₂ vmc vm2) (h' : Captured cfg vm0 ops₁ fn kv ops₂' vmc vm2')
+    (v : V) (w s w' s' : Bool) (vm3 vm3' : VM)
+    (hinv : exec cfg vm2 (.invoke vmc.marks.length v w s) = some vm3)
+    (hinv' : exec cfg vm2' (.invoke vmc.marks.length v w' s') = some vm3') :
+    vm3.frames = vm3'.frames ∧ vm3.stack = vm3'.stack ∧ vm3.ip = vm3'.ip ∧ vm3.sp = vm3'.sp := by
+  obtain ⟨a1, a2, a3, a4, _⟩ := invoke_restores_pending_work h v w s vm3 hinv
+  obtain ⟨b1, b2, b3, b4, _⟩ := invoke_restores_pending_work h' v w' s' vm3' hinv'
+  exact ⟨a1.trans b1.symm, a2.trans b2.symm, a3.trans b3.symm, a4.trans b4.symm⟩
+
+/-- A continuation whose mark is closed, or whose marked frame is on the frame stack, can be invoked. -/
+theorem invoke_succeeds (cfg : Cfg) (vm : VM) (m : Nat) (v : V) (w s : Bool)
+    (h : (∃ c, vm.marks[m]? = some (.closed c)) ∨
+         (∃ o, vm.marks[m]? = some (.opened o) ∧ ∃ f ∈ vm.frames, f.mark = some m)) :
+    (invoke cfg vm m v w s).isSome = true := by
+  unfold invoke
+  rcases h with ⟨c, hc⟩ | ⟨o, ho, f, hf, hm⟩
+  · simp [hc]
+  · simp only [ho]
+    suffices hk : ∀ (close : Bool) (fs : List Frame) (vm' : VM), vm'.marks[m]? = some (.opened o) →
+        (∃ f ∈ fs, f.mark = some m) → (findOpen m o close vm' fs).isSome = true by
+      have := hk (if cfg.closeWhenShared then s else w && s) vm.frames vm ho ⟨f, hf, hm⟩
+      cases hfo : findOpen m o (if cfg.closeWhenShared then s else w && s) vm vm.frames with
+      | none => simp [hfo] at this
+      | some r => simp
+    intro close fs
+    induction fs with
+    | nil => intro vm' _ ⟨f, hf, _⟩; simp at hf
+    | cons g rest ih =>
+      intro vm' ho' ⟨f, hf, hm⟩
+      unfold findOpen
+      by_cases hg : g.mark = some m
+      · simp only [hg, if_true]
+        cases close with
+        | false => simp
+        | true =>
+          simp only [if_true]
+          have : (closeMark { vm' with frames := rest, popCount := vm'.popCount - 1 } m).marks[m]? =
+              some (.closed { stack := vm'.stack.take o.sp ++ o.vals, frames := rest, ip := o.ip, sp := o.sp,
+                              popCount := o.popCount }) := by
+            have hlt : m < vm'.marks.length := by
+              rcases List.getElem?_eq_some_iff.mp ho' with ⟨h', _⟩; exact h'
+            rw [closeMark]
+            dsimp only
+            rw [ho']
+            simp [List.getElem?_set, hlt]
+          simp [this]
+      · simp only [hg, if_false]
+        apply ih
+        · rw [closeFrame_other hg]; exact ho'
+        · rcases List.mem_cons.mp hf with rfl | hf'
+          · exact absurd hm hg
+          · exact ⟨f, hf', hm⟩
+
+/-- `invoke_never_panics`: with the repaired mark discipline (the error unwind closes the marks of the frames it
+pops; the open path closes a mark that somebody else still holds) every continuation captured in a run can be
+invoked in every later state — the panic "Failed to find an open continuation on the stack" is unreachable.  For
+the code as it is (`closeOnUnwind = false` / `closeWhenShared = false`) the statement is false:
+`orphan_after_unwind_witness`, `orphan_after_invoke_witness` (finding K08c). -/
+theorem invoke_never_panics (cfg : Cfg) (h1 : cfg.closeOnUnwind = true) (h2 : cfg.closeWhenShared = true)
+    (stack store : List V) (ip : Nat) (ops : List Op) (vm : VM) (hs : AllShared ops)
+    (hrun : Model.run cfg (init stack store ip) ops = some vm) (m : Nat) (hm : m < vm.marks.length) (v : V) (w : Bool) :
+    (invoke cfg vm m v w true).isSome = true := by
+  have hc0 : Carried (init stack store ip).marks (init stack store ip).frames := by
+    intro j hj; simp [init] at hj
+  have hc := run_carried h1 h2 ops hc0 hs hrun
+  apply invoke_succeeds
+  rcases hc m hm with ⟨c, hcl⟩ | ⟨f, hf, hfm⟩
+  · exact Or.inl ⟨c, hcl⟩
+  · cases hmk : vm.marks[m]? with
+    | none => rw [List.getElem?_eq_none_iff] at hmk; omega
+    | some mk =>
+      cases mk with
+      | closed c => exact Or.inl ⟨c, rfl⟩
+      | opened o => exact Or.inr ⟨o, rfl, f, hf, hfm⟩
+
+/-- `handler_nearest`, for every frame list `pre ++ f :: below` in which `f` is the innermost frame with a handler
+(reachable states satisfy `Sorted`, see `handler_nearest_reachable`): the raise ends in `f` — frames above it are
+gone, the operand stack is cut at `f`'s base with the error value pushed, the handler `h` runs in `f`'s place with
+`f`'s return address; the frames below `f` are untouched unless `f` is the outermost frame and the code pushes a
+dummy frame there (`cfg.dummyFrame`, finding K08d). -/
+theorem handler_nearest_partial (cfg : Cfg) (err : V) (vm : VM) (pre : List Frame) (f : Frame) (below : List Frame)
+    (h : Nat) (hpre : ∀ g ∈ pre, g.handler = none) (hf : f.handler = some h)
+    (hs : Model.Sorted vm.stack (pre ++ f :: below))
+    (hguard : below ≠ [] ∨ cfg.dummyFrame = false) :
+    ∃ r, unwind cfg err vm (pre ++ f :: below) = some r ∧ r.stack = vm.stack.take f.sp ++ [err] ∧ r.sp = f.sp ∧
+      r.ip = 0 ∧ r.store = vm.store ∧
+      r.frames = { f with handler := none, fn := h, mark := none } :: below := by
+  obtain ⟨r, h1, h2, h3, h4, h5, h6⟩ := unwind_nearest cfg err f below h hf pre vm hpre hs
+  refine ⟨r, h1, h2, h3, h4, h5, ?_⟩
+  rw [h6]
+  rcases hguard with hb | hd
+  · cases below with
+    | nil => exact absurd rfl hb
+    | cons b bs => simp
+  · simp [hd]
+
+/-- `handler_nearest` (full statement) for code that pushes no dummy frame. -/
+theorem handler_nearest (cfg : Cfg) (hcfg : cfg.dummyFrame = false) (err : V) (vm : VM) (pre : List Frame)
+    (f : Frame) (below : List Frame) (h : Nat) (hpre : ∀ g ∈ pre, g.handler = none) (hf : f.handler = some h)
+    (hs : Model.Sorted vm.stack (pre ++ f :: below)) :
+    ∃ r, unwind cfg err vm (pre ++ f :: below) = some r ∧ r.stack = vm.stack.take f.sp ++ [err] ∧ r.sp = f.sp ∧
+      r.ip = 0 ∧ r.store = vm.store ∧
+      r.frames = { f with handler := none, fn := h, mark := none } :: below :=
+  handler_nearest_partial cfg err vm pre f below h hpre hf hs (Or.inr hcfg)
+
+/-- Every state reachable from an initial state satisfies the hypothesis of `handler_nearest`. -/
+theorem handler_nearest_reachable (cfg : Cfg) (stack store : List V) (ip : Nat) (ops : List Op) (vm : VM)
+    (h : Model.run cfg (init stack store ip) ops = some vm) : Model.Sorted vm.stack vm.frames :=
+  Sorted_of_Below (run_inv ops (init_inv stack store ip) h).1.cur
+
+/-- With the dummy frame the full statement is false (K08d): a handler installed directly by a top-level form
+that has an argument temporary pending (`(f (+ 1 (call-with-exception-handler h thunk)))`): after the handler
+returned, a frame is still there and `sp` is 1 instead of 0.  Without the dummy frame the state is the expected
+one. -/
+theorem dummy_frame_witness :
+    (Model.run ⟨false, false, true⟩ (init [1] [] 10) [.call 0 7 (some 9), .raise 5, .ret]).map
+        (fun r => (r.stack, r.frames.length, r.sp, r.ip)) = some ([1, 5], 1, 1, 11) ∧
+    (Model.run ⟨false, false, false⟩ (init [1] [] 10) [.call 0 7 (some 9), .raise 5, .ret]).map
+        (fun r => (r.stack, r.frames.length, r.sp, r.ip)) = some ([1, 5], 0, 0, 11) := by
+  decide
+
+/-- K08c (i): the error unwind forgets the mark of a popped frame without closing it (`closeOnUnwind = false`):
+the continuation captured inside the body of a handler frame cannot be invoked after an error has unwound its
+receiver (`none` = the panic "Failed to find an open continuation on the stack").  With the repaired order it is
+closed during the unwind and the invocation reinstates the capture. -/
+theorem orphan_after_unwind_witness :
+    Model.run ⟨false, false, false⟩ (init [] [] 10) [.call 0 7 (some 9), .capture 8 77, .raise 5, .ret,
+        .invoke 0 3 true true] = none ∧
+    (Model.run ⟨true, false, false⟩ (init [] [] 10) [.call 0 7 (some 9), .capture 8 77, .raise 5, .ret,
+        .invoke 0 3 true true]).map (fun r => (r.stack, r.frames.map (·.sp), r.ip)) = some ([3], [0], 1) := by
+  decide
+
+/-- K08c (ii): the open path pops the marked frame but closes the mark only if `weak_count == 1`: with another
+closed continuation holding a copy of the frame (`weakOne = false`) the mark stays open without its frame, and the
+next invocation panics.  Closing whenever `strong_count > 1` repairs it. -/
+theorem orphan_after_invoke_witness :
+    Model.run ⟨false, false, false⟩ (init [] [] 10) [.capture 8 77, .invoke 0 3 false true, .invoke 0 4 false true] = none ∧
+    (Model.run ⟨false, true, false⟩ (init [] [] 10) [.capture 8 77, .invoke 0 3 false true, .invoke 0 4 false true]).map
+        (fun r => (r.stack, r.frames, r.ip)) = some ([4], [], 11) := by
+  decide
+
+/-! ## Non-vacuity -/
+
+/-- A run in which a continuation is captured in argument position with a pending temporary, the receiver returns
+normally (the mark is closed lazily at that pop), the stack and the store change, and the continuation is invoked
+twice: both times the frames, the temporary `1` and the resume address come back, the store keeps its contents. -/
+example :
+    let cfg : Cfg := ⟨false, false, true⟩
+    let vm0 := init [] [0] 0
+    let ops₁ : List Op := [.call 0 5 none, .step [1] 3]          -- inside f: temporary 1 pushed, ip 3
+    let ops₂ : List Op := [.step [77, 2] 1, .ret,               -- receiver returns 2
+                           .step [1, 2, 9] 6, .setStore 0 42]    -- (g) ran: temporaries changed, store written
+    ∃ vmc vm2 vm3, Captured cfg vm0 ops₁ 6 77 ops₂ vmc vm2 ∧
+      exec cfg vm2 (.invoke vmc.marks.length 8 true true) = some vm3 ∧
+      vm3.stack = [1, 8] ∧ vm3.frames.map (·.fn) = [5] ∧ vm3.ip = 4 ∧ vm3.store = [42] := by
+  refine ⟨_, _, _, ⟨init_inv _ _ _, rfl, rfl⟩, rfl, ?_⟩
+  decide
+
+/-- The same continuation invoked while its mark is still open (escape from inside the receiver). -/
+example :
+    (Model.run ⟨false, false, true⟩ (init [] [0] 0) [.call 0 5 none, .step [1] 3, .capture 6 77, .call 0 7 none,
+        .invoke 0 8 true false]).map (fun r => (r.stack, r.frames.map (·.fn), r.ip)) = some ([1, 8], [5], 4) := by
+  decide
+
+/-- `handler_nearest`: two handler frames, the error is raised two frames above the inner one. -/
+example :
+    (Model.run ⟨false, false, true⟩ (init [4] [] 0) [.call 0 1 (some 90), .step [5] 2, .call 0 2 (some 91), .step [6, 7] 3,
+        .call 1 3 none, .call 0 4 none, .raise 13]).map
+      (fun r => (r.stack, r.frames.map (fun f => (f.fn, f.handler)), r.sp)) =
+      some ([4, 5, 13], [(91, none), (1, some 90)], 2) := by
+  decide
+
+/-- `wind_exactly_once`: leave two extents, enter two others, one common. -/
+example :
+    doWind (cmpOf GenCode.codeCmp) [⟨5, 1, 2⟩, ⟨4, 1, 2⟩, ⟨0, 9, 9⟩] ⟨[⟨3, 1, 2⟩, ⟨2, 1, 2⟩, ⟨0, 9, 9⟩], []⟩ =
+      ⟨[⟨5, 1, 2⟩, ⟨4, 1, 2⟩, ⟨0, 9, 9⟩],
+       [.after ⟨3, 1, 2⟩, .after ⟨2, 1, 2⟩, .before ⟨4, 1, 2⟩, .before ⟨5, 1, 2⟩]⟩ := by
+  decide
+
+/-- `wind_normal_and_error_once`: an error raised in the inner body of two nested winds. -/
+example :
+    Wind.run (.wind ⟨1, 0, 0⟩ (.seq (.note 1) (.wind ⟨2, 0, 0⟩ (.seq .raise (.note 2))))) ⟨[], []⟩ =
+      (⟨[], [.before ⟨1, 0, 0⟩, .note 1, .before ⟨2, 0, 0⟩, .after ⟨2, 0, 0⟩, .after ⟨1, 0, 0⟩]⟩, true) := by
+  decide
+
 end SteelVerif.C08
